@@ -28,6 +28,12 @@ Two layers, both executable and core-only:
   A variable declared in a loop body is ONE slot for all iterations in both modes (recorded
   finding C01-loop-body-variable-shared); the harness generates loop-body captures only where
   that cannot be told from a fresh variable per iteration.
+
+* **recursion**: the conditional return `if c { return e }` (`Tm.retif`, a statement of a function
+  body) makes functions that call themselves terminate.  A call is one operation in every layer
+  (`AOp.call`, `FOp.call`, `callVal` → `St.enter`): the callee may be the running function and
+  the call may stand in tail position — the code as it is activates a new frame either way.
+  `recChain` is a recursion as a sequence of frame operations.
 -/
 namespace Risor.C02
 
@@ -310,6 +316,27 @@ def VarM.run : VarM → List FOp → Option VarM
   | t, [] => some t
   | t, op :: ops => (t.step op).bind fun t' => VarM.run t' ops
 
+/-! ### recursion as a sequence of frame operations
+
+A function that calls itself — in tail position (`return f(…)`) or not — is, for the VM as it is,
+a call like any other: `op.Call` → `callObject` → `callFunction` → `activateFunction(fp+1, …)` and
+a nested `eval`.  There is ONE call operation (`FOp.call`); nothing in the machine looks at who
+the callee is or at what follows the call. -/
+
+/-- one level of a recursion: the call (few / many locals), the level stores its value in
+    local 0 and makes a closure over it (`MakeCell 0 0`) -/
+def recLevel (v : Int) (wide : Bool) : List FOp := [.call wide, .storeFast 0 v, .makeCell 0 0]
+
+/-- the descent: level after level, each inside the previous one -/
+def recDescent : List (Int × Bool) → List FOp
+  | [] => []
+  | p :: rest => recLevel p.1 p.2 ++ recDescent rest
+
+/-- a whole recursion: the descent, every level returns, then the closure of every level is
+    read, in the order the closures were made -/
+def recChain (vs : List (Int × Bool)) : List FOp :=
+  recDescent vs ++ (List.replicate vs.length FOp.ret ++ (List.range vs.length).map FOp.loadFree)
+
 /-! ## 2. The closure language -/
 
 inductive Route | map | filter | each | sorted | try_ | spawn | gospawn
@@ -347,6 +374,10 @@ inductive Tm
   | massign (xs : List String) (e : Tm)        -- `a, b = e`           (compileMultiVar, plain)
   | mdecl (xs : List String) (e : Tm)          -- `a, b := e`          (compileMultiVar, walrus)
   | ret (e : Tm)
+  /-- `if c { return e }`: a CONDITIONAL return, a statement of a function body (not inside a block
+      statement).  It is what makes terminating recursion expressible: `if n { return f(n + -1, …) }`
+      is a self call in tail position, `if isz(n) { return acc }` a base case. -/
+  | retif (c e : Tm)
   -- block scopes (statements; only inside functions; `ret` is not allowed inside them)
   | ifte (c : Tm) (t e : List Tm)              -- `if c { t }` / `if c { t } else { e }` (e ≠ [])
   | switch (subj : Tm) (cases : List Tm)       -- `switch subj { case k: … default: … }`, cases are `scase`s, the default last
@@ -377,6 +408,8 @@ inductive RTm
   /-- `e ; Unpack n ; Store* r_{n-1} … Store* r_0`: the refs in the order of the names -/
   | unpack (rs : List Ref) (e : RTm)
   | ret (e : RTm)
+  /-- `c ; JumpIfFalse … ; e ; ReturnValue` (the `return` sits in the block of the `if`) -/
+  | retif (c e : RTm)
   | ifte (c : RTm) (t e : List RTm)
   | switch (subj : RTm) (cases : List RTm)
   | scase (k : Option Int) (body : List RTm)
@@ -658,6 +691,13 @@ def resolveTm : Nat → Tm → RS → Except String (RTm × RS)
     if rs.inBlock then .error "return inside a block"
     let (e, rs) ← resolveTm n e rs
     pure (.ret e, rs)
+  -- `if c { return e }`: compileIf, the body is a block table that declares nothing
+  | n + 1, .retif c e, rs => do
+    if rs.inBlock then .error "return inside a block"
+    let (c, rs) ← resolveTm n c rs
+    let rs ← rs.openB
+    let (e, rs) ← resolveTm n e rs
+    pure (.retif c e, rs.closeB)
   -- compileIf: the condition, then each body is a block (compileBlock: NewBlock … parent)
   | n + 1, .ifte c t e, rs => do
     let (c, rs) ← resolveTm n c rs
@@ -946,6 +986,7 @@ def eval (m : Mode) (lits : List Lit) : Nat → RTm → M Val
     | .opaque => throwE .undef true
     | _ => throwE .type
   | n + 1, .ret e => eval m lits n e
+  | _ + 1, .retif _ _ => throwE .bad true                        -- a statement of a function body: see `execBody`
   -- block statements: their value (popped by the statement list) is not modelled: nil
   | n + 1, .ifte c t e => do
     let cv ← eval m lits n c
@@ -1029,11 +1070,14 @@ def evalList (m : Mode) (lits : List Lit) : Nat → List RTm → M (List Val)
     let v ← eval m lits n t
     let vs ← evalList m lits n ts
     pure (v :: vs)
-/-- statements of a function body; `ret` ends it -/
+/-- statements of a function body; `ret` ends it, `retif` ends it when its condition holds -/
 def execBody (m : Mode) (lits : List Lit) : Nat → List RTm → M Val
   | 0, _ => throwE .fuel true
   | _ + 1, [] => pure .nil
   | n + 1, .ret e :: _ => eval m lits n e
+  | n + 1, .retif c e :: rest => do
+    let cv ← eval m lits n c
+    if cv.truthy then eval m lits n e else execBody m lits n rest
   | n + 1, [t] => eval m lits n t
   | n + 1, t :: ts => do
     let _ ← eval m lits n t
@@ -1177,6 +1221,13 @@ def threadCall (m : Mode) (lits : List Lit) : Nat → Val → List Val → Optio
     | _, none => throwE .type
 end
 
+/-- the state in which the body of a called closure starts: a NEW activation (the next
+    activation number) with its own locals, on top of the running VM's stack -/
+def St.enter (s : St) (l : Lit) (self : Val) (args : List Val) (definer : Nat) (cells : List (Nat × Nat)) : St :=
+  { s with calls := s.calls - 1,
+           acts := s.acts ++ [{ locals := initLocals l self args, parent := some definer, cells := cells }],
+           stack := s.acts.length :: s.stack }
+
 def Prog.initSt (p : Prog) : St :=
   { acts := [{ locals := List.replicate p.mainLocals .undef, parent := none, cells := [] }],
     globals := List.replicate p.nglobals .undef, stack := [0], calls := p.maxCalls }
@@ -1281,6 +1332,25 @@ def captureLocals : List String := [
   "f.capturedLocals = newStorage",
   "f.locals = newStorage",
   "return newStorage"
+]
+
+/-- `RTm.call` / `callVal`: the `Call` instruction hands EVERY callee to `callObject` — there is
+    no other way out of the arm, whoever the callee is and whatever instruction follows -/
+def armCall : List String := [
+  "argc := int(vm.fetch())",
+  "if argc > MaxArgs { return errz.EvalErrorf(\"eval error: max args limit of %d exceeded (got %d)\", MaxArgs, argc) }",
+  "args := make([]object.Object, argc)",
+  "for argIndex := argc - 1; argIndex >= 0; argIndex-- { args[argIndex] = vm.pop() }",
+  "obj := vm.pop()",
+  "if err := vm.callObject(ctx, obj, args); err != nil { return err }"
+]
+
+/-- … and `callObject` runs a function object through `callFunction` (a new frame, `FOp.call`) -/
+def callObjectFunction : List String := [
+  "result, err := vm.callFunction(ctx, fn, args)",
+  "if err != nil { return err }",
+  "vm.push(result)",
+  "return nil"
 ]
 
 /-- `FM.step (.call wide)`: the slot is reset when an activation STARTS in it — whatever the
